@@ -1245,7 +1245,13 @@ def case_count_nested(ctx, s: Subject):
     real = call_real(lambda: (lambda r: {"index": export.labels(r.index), "n": [int(v) for v in r["n_nest"]],
                                          "cols": list(r.columns), "cls": type(r).__name__})(count_nested(nf, "nest", join=join)))
     exp_cols = (list(nf.columns) + ["n_nest"]) if join else ["n_nest"]
-    ctx.case("count_nested", {**s.desc(), "labels": labels, "join": join}, real, None,
+    # the model's counts (`NArr.countRecords`: the first field's lists of the list view, as utils.count_nested reads them)
+    model = None
+    if n > 0:
+        mc = ctx.driver.call("observers", col=export.export_ext(nf["nest"].array))["model"].get("countRecords")
+        if isinstance(mc, dict) and "ok" in mc:
+            model = {"ok": {"index": [export.label(l) for l in labels], "n": mc["ok"], "cols": exp_cols, "cls": "NestedFrame"}}
+    ctx.case("count_nested", {**s.desc(), "labels": labels, "join": join}, real, model,
              {"ok": {"index": [export.label(l) for l in labels], "n": lens, "cols": exp_cols, "cls": "NestedFrame"}}, hyp=hyp,
              features=s.features + (f"join={join}",), nontrivial=s.nontrivial(), mode="empty" if n == 0 else "spec")
     byf = next((nm for nm, t in s.ty if t in ("int64", "string", "bool")), None)
